@@ -524,52 +524,65 @@ class FileIndex(Index):
                     segments.append(segment)
 
         reusable = {}
+        if reuse:
+            # Put all atomic readers in a dictionary
+            readers = [r for r, _ in reuse.leaf_readers()]
+            reusable = dict((r.segment(), r) for r in readers
+                            if r.segment() is not None)
+
+        # Make a function to open readers, which reuses reusable readers.
+        # It removes any readers it reuses from the "reusable" dictionary,
+        # so later we can close any readers left in the dictionary.
+        opened = []
+
+        def segreader(segment):
+            # Segments compare equal by ID, but a later commit may have
+            # deleted documents from a segment: the open reader holds the
+            # segment object (and deletion set) of ITS generation, so it
+            # can only be re-used when the deletions are still the same
+            if (segment in reusable
+                and _same_deletions(reusable[segment].segment(), segment)):
+                r = reusable[segment]
+                del reusable[segment]
+                if r.generation() is not None:
+                    # The re-used reader now serves this generation
+                    # (otherwise up_to_date() stays False for ever)
+                    r._gen = generation
+                return r
+            else:
+                r = SegmentReader(storage, schema, segment,
+                                  generation=generation)
+                opened.append(r)
+                return r
+
         try:
             if len(segments) == 0:
                 # This index has no segments! Return an EmptyReader object,
                 # which simply returns empty or zero to every method
-                return EmptyReader(schema, generation=generation)
-
-            if reuse:
-                # Put all atomic readers in a dictionary
-                readers = [r for r, _ in reuse.leaf_readers()]
-                reusable = dict((r.segment(), r) for r in readers if r.segment() is not None)
-
-            # Make a function to open readers, which reuses reusable readers.
-            # It removes any readers it reuses from the "reusable" dictionary,
-            # so later we can close any readers left in the dictionary.
-            def segreader(segment):
-                # Segments compare equal by ID, but a later commit may have
-                # deleted documents from a segment: the open reader holds the
-                # segment object (and deletion set) of ITS generation, so it
-                # can only be re-used when the deletions are still the same
-                if (segment in reusable
-                    and _same_deletions(reusable[segment].segment(), segment)):
-                    r = reusable[segment]
-                    del reusable[segment]
-                    if r.generation() is not None:
-                        # The re-used reader now serves this generation
-                        # (otherwise up_to_date() stays False for ever)
-                        r._gen = generation
-                    return r
-                else:
-                    return SegmentReader(storage, schema, segment,
-                                         generation=generation)
-
-            if len(segments) == 1:
+                reader = EmptyReader(schema, generation=generation)
+            elif len(segments) == 1:
                 # This index has one segment, so return a SegmentReader object
                 # for the segment
-                return segreader(segments[0])
+                reader = segreader(segments[0])
             else:
                 # This index has multiple segments, so create a list of
                 # SegmentReaders for the segments, then composite them with a
                 # MultiReader
-
                 readers = [segreader(segment) for segment in segments]
-                return MultiReader(readers, generation=generation)
-        finally:
-            for r in reusable.values():
+                reader = MultiReader(readers, generation=generation)
+        except:
+            # Typically a segment file was deleted by a writer between reading
+            # the TOC and opening the file, and the caller will try again with
+            # the same "reuse" reader: close what this attempt opened, but
+            # leave the re-usable readers alone
+            for r in opened:
                 r.close()
+            raise
+
+        # Close the re-usable readers the new reader doesn't use
+        for r in reusable.values():
+            r.close()
+        return reader
 
     def reader(self, reuse=None):
         retries = 10
